@@ -208,7 +208,7 @@ theorem parseMatches_ok {cc : CharClass} : ∀ (ms : List (List Char × List Cha
 /-- **every parsed entry is well formed**, whatever the input string was -/
 theorem parse_ok {cc : CharClass} {s : List Char} {es : List Entry}
     (h : parseCustomAttributes cc s = .ok es) : ∀ e ∈ es, EntryOK cc e :=
-  parseMatches_ok _ es (scan_spec cc _ s 0 false) h
+  parseMatches_ok _ es (scan_spec cc _ _ s 0 false) h
 
 /-! ### `make_custom_string` writes a canonical layout -/
 
